@@ -358,7 +358,20 @@ func (r *c20Run) continueWaiter(a *c20Actor) string {
 	if from == "get" || strings.HasPrefix(from, "set:") {
 		// the last gate of the goroutine: let it finish
 		if strings.HasPrefix(g, "set:") {
+			r.w.mu.Lock()
+			n := len(r.w.progLog)
+			r.w.mu.Unlock()
 			a.release <- struct{}{}
+			// the write happens after the gate: wait for it (it WILL happen; no timing assumption)
+			for deadline := time.Now().Add(r.w.timeout); time.Now().Before(deadline); {
+				r.w.mu.Lock()
+				done := len(r.w.progLog) > n
+				r.w.mu.Unlock()
+				if done {
+					break
+				}
+				time.Sleep(20 * time.Microsecond)
+			}
 		}
 		a.at = "done"
 		return "done"
@@ -395,6 +408,27 @@ func (r *c20Run) do(act c20Action) string {
 	case "SigBusy":
 		before := w.observe()
 		g := w.step(w.main)
+		after := w.observe()
+		if before.Pending != after.Pending || before.Active != after.Active || before.Reloading != after.Reloading || before.Suppress != after.Suppress || before.Chan != after.Chan {
+			r.refusedChanged = append(r.refusedChanged, fmt.Sprintf("before %+v after %+v", before, after))
+		}
+		// the refused request looks at the admission flag again right after its report (no gate in between): when the flag
+		// is clear it goes on to clear the report and is now parked before reading the progress file
+		if g == "get" {
+			return ""
+		}
+		return exp(g, "idle")
+	case "SigLoad":
+		return "" // happened together with SigBusy (see there)
+	case "SigClear":
+		if w.main.at != "get" {
+			return "SigClear: the real handler is not about to clear its busy report (at " + w.main.at + ")"
+		}
+		before := w.observe()
+		g := w.step(w.main)
+		if g == "set:"+string(consts.ReloadDone) {
+			g = w.step(w.main)
+		}
 		after := w.observe()
 		if before.Pending != after.Pending || before.Active != after.Active || before.Reloading != after.Reloading || before.Suppress != after.Suppress || before.Chan != after.Chan {
 			r.refusedChanged = append(r.refusedChanged, fmt.Sprintf("before %+v after %+v", before, after))
@@ -538,11 +572,19 @@ func TestVerifC20Replay(t *testing.T) {
 			res.AddDrift(fmt.Sprintf("[%s] %s", b.Origin, drift))
 			res.Count("drift", 1)
 		} else {
+			// (a schedule of the model variant without the re-check ends with the real handler still inside its refusal: let it finish)
+			for i := 0; i < 3 && (r.w.main.at == "get" || strings.HasPrefix(r.w.main.at, "set:")); i++ {
+				r.w.step(r.w.main)
+			}
 			// quiescent end state of the behaviour: the property layer on the real objects
 			o := r.w.observe()
 			res.Eval(1)
 			if o.Pending || o.Active || o.Reloading || o.Suppress != 0 || o.Chan != 0 {
 				res.Failf(key, names, "after schedule %v the real reload manager is left with pending=%v active=%v reloading=%v suppression=%d queued=%d (all must be clear once everything has settled)", names, o.Pending, o.Active, o.Reloading, o.Suppress, o.Chan)
+			}
+			// ... and the progress file says Done or Error: 'dae reload' / 'dae suspend' refuse to signal on anything else
+			if o.Progress != consts.ReloadDone && o.Progress != consts.ReloadError {
+				res.Failf(key+"|progress", names, "after schedule %v everything has settled but the progress file is left at %q: 'dae reload' and 'dae suspend' will refuse to send a new request", names, c20ProgressName[o.Progress])
 			}
 			if o.Pending != b.Pending || o.Active != b.Active || o.Reloading != b.Reloading || o.Suppress != b.Suppress {
 				res.AddDrift(fmt.Sprintf("end state differs from the model: real %+v model %+v", o, b))
@@ -740,6 +782,9 @@ func TestVerifC20RandomWalk(t *testing.T) {
 			}
 			if quiescentWorker && (o.Pending || o.Active || o.Suppress != 0) {
 				res.Failf(key+"|wedged", trail, "walk %v: everything has settled but pending=%v active=%v suppression=%d", trail, o.Pending, o.Active, o.Suppress)
+			}
+			if quiescentWorker && !o.Pending && o.Progress != consts.ReloadDone && o.Progress != consts.ReloadError {
+				res.Failf(key+"|progress", trail, "walk %v: everything has settled but the progress file is left at %q: 'dae reload' and 'dae suspend' will refuse to send a new request", trail, c20ProgressName[o.Progress])
 			}
 			for _, c := range r.refusedChanged {
 				res.Failf(key+"|refused", trail, "a refused request changed the manager state: %s", c)
